@@ -186,6 +186,22 @@ CLAIMED = {
          "model, assumed; the distinctness of a role's three maps is a precondition of setParent; the composition of the links through function "
          "values (ParentAdapter getters) and the template substitution that consumes the stacks are outside the contracts.",
          "DESIGN.md §6 C14"),
+ "C17": ("NARROW. Proof obligations on the sequential code the property rests on: ensureBasicTaskKilled never dereferences a nil ProcessState/Process "
+         "(child running, gone or never started - a genuine defect found here, repaired by a fix: commit), records KILLED for the reaper and sends "
+         "SIGKILL to the negative pid (the whole process group) exactly once; the basic task's transition function maps START/STOP onto start/kill; "
+         "the basic task reaper reports the child's end once, with the pending final state if a kill left one, else FAILED iff Wait failed, else "
+         "FINISHED; ControllableTask.Kill: the walk towards DONE terminates (decreases rank(reachedState), using the transitioner contract of C16 "
+         "through the commit goroutine's guarantee), exactly one final state is left for the reaper - FINISHED iff DONE was reached, KILLED "
+         "otherwise, never FAILED -, the control channel is used only when it exists (a second genuine defect, repaired), and the process is "
+         "signalled via doTermIntKill unless already gone; doTermIntKill is loop-free (bounded by its three constant waits), sends TERM then INT "
+         "to that pid and returns only after the process was seen gone or SIGKILL was sent.",
+         "'At most one terminal status' across the reaper and a concurrent kill, process groups actually dying, hangs on the one-slot "
+         "pendingFinalTaskStateCh under repeated kills, and every race between Kill, the Launch goroutine and the reaper are schedule / OS questions "
+         "this family does not decide (a KILL that arrives while a controllable task is still starting no longer crashes the executor but the "
+         "child it races with is not signalled: observed, not decided). Assumed: the rely on the value received from the commit goroutine "
+         "(guaranteed by that goroutine's own contract), the interface-level transitioner contract, immutability of a transition command's "
+         "event/source/destination, os/exec and syscall behaviour.",
+         "DESIGN.md §6 C17"),
 }
 
 NOT_APPLICABLE = {
